@@ -11,7 +11,7 @@ import (
 )
 
 func init() {
-	register(&Rule{ID: "R6.caught-up-guard", Props: []string{"C06"}, Floor: 3,
+	register(&Rule{ID: "R6.caught-up-guard", Props: []string{"C06", "C15"}, Floor: 3,
 		Text: "every setCaughtUp(true) is dominated by the true edge of a comparison a >= b where b derives from the leader's aof_size and a is the follower's own position (returned by followCheckSome or followHandleCommand); setCaughtUp(false) dominates the connection to the leader in followStep",
 		Run:  ruleCaughtUpGuard})
 	register(&Rule{ID: "R6.position-implies-state", Props: []string{"C06"}, Floor: 3,
